@@ -663,7 +663,9 @@ func builtin_ord(self, obj py.Object) (py.Object, error) {
 	case py.String:
 		size = len(x)
 		rune, runeSize := utf8.DecodeRuneInString(string(x))
-		if size == runeSize && rune != utf8.RuneError {
+		// utf8.RuneError with a width of 1 is a decoding failure; with its
+		// real width it is the character U+FFFD itself
+		if size == runeSize && (rune != utf8.RuneError || runeSize > 1) {
 			return py.Int(rune), nil
 		}
 	//case py.ByteArray:
